@@ -16,6 +16,8 @@ def world_module(world):
 
 def run_world(world, idx=0, timeout=180, hashseed='0', extra_env=None, keep=False):
     """Materialise the world, run it in a fresh interpreter, return the observation."""
+    import worldcase
+    worldcase.sync_twins(world)
     mod = world.get('module') or world_module(world)
     d = os.path.join(fw.scratch(), 'w_%s_%d_%d' % (mod, idx, os.getpid()))
     shutil.rmtree(d, ignore_errors=True)
